@@ -6,6 +6,7 @@ import (
 	"crypto/sha256"
 	"encoding/json"
 	"fmt"
+	"os"
 	"runtime"
 	"runtime/debug"
 	"sort"
@@ -64,6 +65,15 @@ type c03cfg struct {
 	Drops     int    `json:"drops_per_receiver"`
 	Pre       []int  `json:"pre_triggered,omitempty"`         // nodes whose trigger happens before any delivery (restricts the schedules explored)
 	DupTx     bool   `json:"duplicate_tx_identity,omitempty"` // Gnosis: the same (prefix, sender) is queued twice, so the trigger lists one identity twice
+	// Rounds == 2 (core, service): every triggered node is triggered twice, first for
+	// the first identity only (block c03Block), then for all identities (next
+	// block): overlapping identity lists, the second trigger at any time after the first.
+	Rounds int `json:"rounds,omitempty"`
+	// R1 (with Rounds == 2 and Pre): how far the first round got, in the default
+	// order, before the exploration starts: "all" = every message of the first round
+	// delivered, "dest<j>" = only those addressed to node j (node j holds the first
+	// key, the others do not yet), "" = nothing (the full interleaving of both rounds).
+	R1 string `json:"first_round_delivered,omitempty"`
 }
 
 type c03state struct {
@@ -71,6 +81,7 @@ type c03state struct {
 	inflight  []flight        // sorted by id
 	delivered map[string]bool // flight ids already delivered (re-emissions of the same content are gossip duplicates)
 	triggered [c03N]bool
+	round2    [c03N]bool // second trigger (overlapping identity list) done
 	dups      int
 	drops     [c03N]int
 	keysSent  int // keys messages published network-wide
@@ -189,7 +200,7 @@ func (net *c03net) key(s *c03state) string {
 		del = append(del, k)
 	}
 	sort.Strings(del)
-	fmt.Fprintf(&sb, "|%v|%v|%d|%v|%d", del, s.triggered, s.dups, s.drops, minI(s.keysSent, 1))
+	fmt.Fprintf(&sb, "|%v|%v|%v|%d|%v|%d", del, s.triggered, s.round2, s.dups, s.drops, minI(s.keysSent, 1))
 	return sb.String()
 }
 
@@ -260,6 +271,15 @@ func (net *c03net) identities() []identitypreimage.IdentityPreimage { return net
 func (net *c03net) trigger(s *c03state, i int) string {
 	n := kpx.NodeOnDB(net.spec, c03members[i], s.dbs[i].Clone())
 	ids := net.ids
+	block := uint64(c03Block)
+	if net.cfg.Rounds == 2 {
+		if !s.triggered[i] {
+			ids = net.ids[:1]
+		} else {
+			block++
+			s.round2[i] = true
+		}
+	}
 	if net.cfg.Flavour == "gnosis" {
 		ks, err := obskeyper.New(n.Pool).GetKeyperSetByKeyperConfigIndex(context.Background(), c03Set)
 		kpx.Must(err)
@@ -269,7 +289,7 @@ func (net *c03net) trigger(s *c03state, i int) string {
 		ev := <-n.Triggers
 		ids = ev.Value.IdentityPreimages
 	}
-	out, err := n.Trigger(c03Block, ids)
+	out, err := n.Trigger(block, ids)
 	if err != nil {
 		return fmt.Sprintf("node %d cannot produce its key shares: %v", i, err)
 	}
@@ -355,6 +375,26 @@ func (net *c03net) run(c *report.Ctx, label string) {
 			return
 		}
 	}
+	for cfg.R1 != "" {
+		var next *flight
+		for k := range init.inflight {
+			f := init.inflight[k]
+			if cfg.R1 == "all" || cfg.R1 == fmt.Sprintf("dest%d", f.Dest) {
+				next = &f
+				init.inflight = append(append([]flight{}, init.inflight[:k]...), init.inflight[k+1:]...)
+				break
+			}
+		}
+		if next == nil {
+			break
+		}
+		init.delivered[next.id()] = true
+		init.path = append(init.path, "deliver("+next.id()+")")
+		if msg := net.deliver(init, *next); msg != "" {
+			c.Violation("C03/"+cfg.Flavour+"/other", fmt.Sprintf("%s: first round, %v: %s", label, init.path, msg), c03Replay{cfg, init.path})
+			return
+		}
+	}
 	inS := map[int]bool{}
 	for _, i := range cfg.Triggered {
 		inS[i] = true
@@ -406,7 +446,7 @@ func (net *c03net) run(c *report.Ctx, label string) {
 				emit(name, ns)
 			}
 			for i := 0; i < c03N && !b.Stop; i++ {
-				if inS[i] && !s.triggered[i] {
+				if inS[i] && (!s.triggered[i] || cfg.Rounds == 2 && !s.round2[i]) {
 					i := i
 					step(fmt.Sprintf("trigger(%d)", i), func(ns *c03state) string { return net.trigger(ns, i) })
 				}
@@ -465,7 +505,7 @@ func (net *c03net) run(c *report.Ctx, label string) {
 func c03() *report.Check {
 	return &report.Check{
 		Level: "model_checking",
-		Rule:  "explicit-state BFS over a network of 3 real nodes (t=2) per flavour (core, Gnosis, Shutter service): state = three node databases + in-flight (message, receiver) set; transitions Trigger(i) for every chosen subset of >= t nodes, Deliver, Duplicate (bounded), Drop of share messages (bounded per receiver so that every receiver keeps >= t shares); every transition runs the real validators / handlers / middleware / KeyShareHandler; oracles: honest messages accepted, every published key correct and accepted by the access node (Gnosis), a triggered node that completes the keys from shares publishes them, at quiescence every node holds all correct keys and at least one keys message was published. Classes = kinds of transition and quiescent outcomes per flavour",
+		Rule:  "explicit-state BFS over a network of 3 real nodes (t=2) per flavour (core, Gnosis, Shutter service): state = three node databases + in-flight (message, receiver) set; transitions Trigger(i) for every chosen subset of >= t nodes, Deliver, Duplicate (bounded), Drop of share messages (bounded per receiver so that every receiver keeps >= t shares); configurations with two trigger rounds per node and overlapping identity lists ({A} then {A,B}); every transition runs the real validators / handlers / middleware / KeyShareHandler; oracles: honest messages accepted, every published key correct and accepted by the access node (Gnosis), a triggered node that completes the keys from shares publishes them, at quiescence every node holds all correct keys and at least one keys message was published. Classes = kinds of transition and quiescent outcomes per flavour",
 		Assumptions: []string{
 			"gossip is modelled as a set of (content, receiver) pairs: a re-emitted identical message is a duplicate of the first (libp2p's seen-cache); real mesh behaviour (scoring, fan-out) is outside",
 			"share messages may be lost only as long as every receiver still obtains t shares (own included); keys messages are not lost",
@@ -484,7 +524,7 @@ func c03() *report.Check {
 					}
 					if c.Thorough {
 						for _, nid := range []int{1, 2} {
-							cfgs = append(cfgs, c03cfg{fl, nid, sub, 1, drops, nil, false})
+							cfgs = append(cfgs, c03cfg{fl, nid, sub, 1, drops, nil, false, 0, ""})
 						}
 					} else {
 						nid := 1
@@ -493,19 +533,19 @@ func c03() *report.Check {
 						}
 						switch {
 						case len(sub) < 3:
-							cfgs = append(cfgs, c03cfg{fl, nid, sub, 0, 0, nil, false})
+							cfgs = append(cfgs, c03cfg{fl, nid, sub, 0, 0, nil, false, 0, ""})
 							if fl == "core" {
-								cfgs = append(cfgs, c03cfg{fl, 1, sub, 1, 0, nil, false})
+								cfgs = append(cfgs, c03cfg{fl, 1, sub, 1, 0, nil, false, 0, ""})
 							}
 						case fl == "core":
-							cfgs = append(cfgs, c03cfg{fl, nid, sub, 0, 0, nil, false})
+							cfgs = append(cfgs, c03cfg{fl, nid, sub, 0, 0, nil, false, 0, ""})
 						default:
 							// quick: two triggers happen before any delivery, the third at any time
 							pre := []int{0, 1}
 							if fl == "service" {
 								pre = []int{0, 1, 2} // the late-trigger schedules of this flavour are left to the thorough tier
 							}
-							cfgs = append(cfgs, c03cfg{fl, nid, sub, 0, 0, pre, false})
+							cfgs = append(cfgs, c03cfg{fl, nid, sub, 0, 0, pre, false, 0, ""})
 						}
 					}
 				}
@@ -513,12 +553,33 @@ func c03() *report.Check {
 			// Gnosis: one sender submitted the same identity prefix twice (legal): honest
 			// shares / keys messages then carry equal neighbouring identities
 			cfgs = append(cfgs, c03cfg{Flavour: "gnosis", NumIDs: 3, Triggered: []int{0, 1}, DupTx: true}, c03cfg{Flavour: "gnosis", NumIDs: 3, Triggered: []int{1, 2}, DupTx: true})
+			// overlapping identity lists: trigger for {A}, then for {A,B}
+			for _, fl := range []string{"core", "service"} {
+				// quick: the first round's triggers happen before any delivery
+				for _, r1 := range []string{"all", "dest2", "dest0", "dest1"} {
+					if !c.Thorough && (r1 == "dest0" || r1 == "dest1") {
+						continue // the two largest families are left to the thorough tier
+					}
+					cfgs = append(cfgs, c03cfg{Flavour: fl, NumIDs: 2, Triggered: []int{0, 1}, Rounds: 2, Pre: []int{0, 1}, R1: r1})
+					if c.Thorough {
+						cfgs = append(cfgs, c03cfg{Flavour: fl, NumIDs: 3, Triggered: []int{1, 2}, Rounds: 2, Pre: []int{1, 2}, R1: r1})
+					}
+				}
+				if c.Thorough {
+					cfgs = append(cfgs, c03cfg{Flavour: fl, NumIDs: 2, Triggered: []int{0, 1}, Rounds: 2, Pre: []int{0, 1}}, c03cfg{Flavour: fl, NumIDs: 2, Triggered: []int{1, 2}, Rounds: 2, Pre: []int{1, 2}})
+					cfgs = append(cfgs, c03cfg{Flavour: fl, NumIDs: 2, Triggered: []int{0, 1}, Rounds: 2}, c03cfg{Flavour: fl, NumIDs: 2, Triggered: []int{1, 2}, Rounds: 2},
+						c03cfg{Flavour: fl, NumIDs: 3, Triggered: []int{0, 2}, Rounds: 2}, c03cfg{Flavour: fl, NumIDs: 2, Triggered: []int{0, 1, 2}, Rounds: 2, Pre: []int{0, 1}})
+				}
+			}
 			for i, cfg := range cfgs {
 				if i%c.NShards != c.Shard {
 					continue
 				}
-				net := newC03net(cfg)
 				b, _ := json.Marshal(cfg)
+				if only := os.Getenv("VERIF_C03_ONLY"); only != "" && !strings.Contains(string(b), only) {
+					continue // development aid: run one family of configurations
+				}
+				net := newC03net(cfg)
 				net.run(c, string(b))
 				if i == 0 {
 					c.Stats.Sample(map[string]any{"config": cfg, "identities": fmt.Sprintf("%x", net.ids)})
